@@ -286,10 +286,14 @@ def gen_twins(rng):
                 pixels = rng.sample(range(gens.ncov_of(cfg)), rng.randint(1, 4))
             both(dict(op='wr', h=cur, out=nxt, compress=rng.random() < 0.5, pixels=pixels))
             # (the partial read may be rejected when no pixel is covered: then the old handle stays)
-            hist.append(dict(op='ifexists', h=nxt))
-            cur_new = nxt
-            nxt += 1
-            hist.append(dict(op='sameas_if', h=cur_new, ref=cur_new + 100))
+            hist.append(dict(op='sameas_if', h=nxt, ref=nxt + 100))
+            if pixels is None:
+                cur = nxt          # carry on with the map that was read back (it must grow like any other)
+                nxt += 1
+                both(dict(op='grow', h=cur, which=rng.randrange(5), off=rng.randrange(16), alt=rng.randrange(40)))
+                compare(cur)
+            else:
+                nxt += 1
             continue
         else:
             both(dict(op='mklike', h=cur, out=nxt))
